@@ -17,8 +17,82 @@ def parseDataJ (s : String) : Option C50.DataJ :=
 
 def parseBool (s : String) : Option Bool := if s = "1" then some true else if s = "0" then some false else none
 
+/-! whole-message op: `DNSMessage.to_json` and `from_json(to_json(m))` with every text codec computed by the model
+    (`realCodec6 asciiIdna`, HTTPS part absent: the harness sends no message with a type-65 record or an ACE label) -/
+
+def noHttps : C50.Codec := ⟨fun _ _ => none, fun _ _ => none⟩
+def msgCodec : C50.Codec := C50.Codecs.realCodec6 C50.Codecs.asciiIdna noHttps
+
+def takeQs : Nat → List String → Option (List C50.Question × List String)
+  | 0, rest => some ([], rest)
+  | n + 1, nm :: t :: c :: rest =>
+    match parseCps50 nm, t.toNat?, c.toNat?, takeQs n rest with
+    | some name, some ty, some cl, some (qs, r) => some (⟨name, ty, cl⟩ :: qs, r)
+    | _, _, _, _ => none
+  | _ + 1, _ => none
+
+def takeRRs : Nat → List String → Option (List C50.RR × List String)
+  | 0, rest => some ([], rest)
+  | n + 1, nm :: t :: c :: ttl :: d :: rest =>
+    match parseCps50 nm, t.toNat?, c.toNat?, ttl.toNat?, hexOr d, takeRRs n rest with
+    | some name, some ty, some cl, some tt, some data, some (rs, r) => some (⟨name, ty, cl, tt, data⟩ :: rs, r)
+    | _, _, _, _, _, _ => none
+  | _ + 1, _ => none
+
+def showChars (l : List Char) : String := String.ofList l
+def showB (b : Bool) : String := if b then "1" else "0"
+
+def showDataJ : C50.DataJ → String
+  | .str s => "s:" ++ showCps50 s
+  | .obj _ => "obj"
+
+def showRJ (r : C50.RJ) : String :=
+  s!"{showCps50 r.name}/{showChars r.type}/{showChars r.cls}/{r.ttl}/{showDataJ r.data}"
+
+def showRR (r : C50.RR) : String := s!"{showCps50 r.name}/{r.type}/{r.cls}/{r.ttl}/{showBytes r.data}"
+
+def showSec {α} (f : α → String) (l : List α) : String := if l.isEmpty then "-" else ";".intercalate (l.map f)
+
+def showMJ (j : C50.MJ) : String :=
+  s!"id={j.id} q={showB j.query} op={showChars j.op} aa={showB j.aa} tc={showB j.tc} rd={showB j.rd} ra={showB j.ra} rc={showChars j.rcode} " ++
+  s!"qs={showSec (fun (q : C50.QJ) => s!"{showCps50 q.name}/{showChars q.type}/{showChars q.cls}") j.qs} " ++
+  s!"an={showSec showRJ j.an} ns={showSec showRJ j.ns} ar={showSec showRJ j.ar}"
+
+def showMsg (m : C50.Msg) : String :=
+  s!"id={m.id} q={showB m.query} op={m.op} aa={showB m.aa} tc={showB m.tc} rd={showB m.rd} ra={showB m.ra} z={m.z} rc={m.rcode} " ++
+  s!"qs={showSec (fun (q : C50.Question) => s!"{showCps50 q.name}/{q.type}/{q.cls}") m.qs} " ++
+  s!"an={showSec showRR m.an} ns={showSec showRR m.ns} ar={showSec showRR m.ar}"
+
+def msgOp (toks : List String) : String :=
+  match toks with
+  | id :: q :: op :: aa :: tc :: rd :: ra :: z :: rc :: nq :: rest =>
+    match id.toNat?, parseBool q, op.toNat?, parseBool aa, parseBool tc, parseBool rd, parseBool ra, z.toNat?, rc.toNat?, nq.toNat? with
+    | some id, some q, some op, some aa, some tc, some rd, some ra, some z, some rc, some nq =>
+      match takeQs nq rest with
+      | some (qs, nan :: nns :: nar :: rest2) =>
+        match nan.toNat?, nns.toNat?, nar.toNat? with
+        | some a, some n, some r =>
+          match takeRRs a rest2 with
+          | some (an, rest3) =>
+            match takeRRs n rest3 with
+            | some (ns, rest4) =>
+              match takeRRs r rest4 with
+              | some (ar, []) =>
+                let m : C50.Msg := ⟨id, q, op, aa, tc, rd, ra, z, rc, qs, an, ns, ar⟩
+                let j := C50.toJson msgCodec m
+                let back := match C50.fromJson msgCodec j with | some m' => showMsg m' | none => "raise"
+                showMJ j ++ " | " ++ back
+              | _ => "bad-op"
+            | none => "bad-op"
+          | none => "bad-op"
+        | _, _, _ => "bad-op"
+      | _ => "bad-op"
+    | _, _, _, _, _, _, _, _, _, _ => "bad-op"
+  | _ => "bad-op"
+
 def c50Step (line : String) : String :=
   match fields line with
+  | "msg" :: toks => msgOp toks
   | ["table"] =>
     let raw := (Gen.C50.prettifyReturns.filter (·.2 == "raw")).length
     s!"returns={Gen.C50.prettifyReturns.length} raw={raw} types={Gen.C50.typeNames.length} classes={Gen.C50.classNames.length} ops={Gen.C50.opNames.length} rcodes={Gen.C50.rcodeNames.length}"
